@@ -978,6 +978,12 @@ class Exec:
             if isinstance(o, Opaque) and getattr(o, 'nilc', None) is not None:
                 return o.nilc
             return False
+        h = getattr(a, 'go_eq', None)
+        if h is not None:
+            return h(self, b)
+        h = getattr(b, 'go_eq', None)
+        if h is not None:
+            return h(self, a)
         if isinstance(a, UUIDStr) or isinstance(b, UUIDStr):
             if isinstance(a, UUIDStr) and isinstance(b, UUIDStr):
                 return self.eq(a.v, b.v)
@@ -1799,6 +1805,20 @@ class Explorer:
     def select(self, ex, states, blocking, t):
         """default: a blocked select is released by its first timer (time.After) case"""
         zero = tuple([ex.zero(x) for x in ex.prog.types[t]['elems'][2:]])
+        # receivable: a queued value, or a closed channel
+        nrecv = -1
+        ready = []
+        for idx, (d, c, snd) in enumerate(states):
+            if d == 2:
+                nrecv += 1
+                if isinstance(c, Chan) and c.q:
+                    ready.append((idx, nrecv))
+        if ready:
+            idx, k = ready[ex.choose(len(ready))] if len(ready) > 1 else ready[0]
+            v = states[idx][1].q.pop(0)
+            vals = list(zero)
+            vals[k] = v
+            return (idx, True) + tuple(vals)
         for idx, (d, c, snd) in enumerate(states):
             if isinstance(c, Chan) and c.closed and d == 2:
                 return (idx, False) + zero
